@@ -371,6 +371,42 @@ def run(ctx):
     from .. import core as _core5
     _core5.run_proxied(ctx, c20, 'R05q', ('R20k',))
 
+    # ---- R05r: the generic scan for a math delimiter looks at every delimiter in every state
+    ctx.rule('R05r', 'impl_maybe_read_math_mode_delimiter: inside the loop over all math delimiters, whether a delimiter is reported '
+                     '(and whether the loop moves on or stops) depends on nothing but `s.startswith(<delimiter>, pos)`: the reader '
+                     'reports every delimiter it sees and leaves it to the parsers to reject the misplaced ones -- a delimiter '
+                     'skipped because of the current mode (an opening `\\(` inside a formula) is read as an ordinary macro and '
+                     'the unbalanced document is accepted in strict mode', 1)
+    trm5 = repo.mod('pylatexenc.latexnodes._tokenreader')
+    mr5 = trm5.methods('LatexTokenReader').get('impl_maybe_read_math_mode_delimiter')
+    if mr5 is None:
+        raise AnalysisError('anchor vanished: impl_maybe_read_math_mode_delimiter')
+    loops5 = [l_ for l_ in iter_own(mr5) if isinstance(l_, ast.For) and '_math_all_delims' in unparse(l_.iter)]
+    n5r = 0
+    for l_ in loops5:
+        lv_ = {n_.id for n_ in ast.walk(l_.target) if isinstance(n_, ast.Name)}
+        inside_ = {id(n_) for n_ in ast.walk(l_)}
+        for st_ in ast.walk(l_):
+            if not isinstance(st_, (ast.Continue, ast.Break, ast.Return)):
+                continue
+            n5r += 1
+            other_ = []
+            for t_, pol_ in atomic_facts(st_):
+                if id(t_) not in inside_:
+                    continue
+                ok_t = isinstance(t_, ast.Call) and call_name(t_) == 'startswith' and t_.args and \
+                    isinstance(t_.args[0], ast.Name) and t_.args[0].id in lv_
+                if not ok_t:
+                    other_.append((unparse(t_), pol_))
+            ctx.decide('R05r', not other_, trm5, st_, 'delimiter scan: `%s` depends on the startswith test only' % short(st_, 30),
+                       'in the scan over all math delimiters `%s` is reached under %s: a delimiter is passed over (or accepted) '
+                       'for a reason other than whether the input continues with it, so in that state the reader does not report '
+                       'it -- an unmatched opening delimiter added inside a formula is read as a macro and strict mode accepts '
+                       'the document' % (short(st_, 30), ['%s is %s' % (x_[:60], y_) for x_, y_ in other_[:2]]),
+                       construct='impl_maybe_read_math_mode_delimiter: scan %s' % type(st_).__name__.lower())
+    if not n5r:
+        ctx.unknown('R05r', trm5, mr5, 'no loop over the math delimiters with an exit found', construct='math delimiter scan')
+
     # ---- R05p: a comment ends at the first newline after its start marker
     ctx.rule('R05p', 'impl_read_comment: the search for the newline that ends a comment starts exactly where the comment text '
                      'starts (the slice start of the token text): an empty comment `%` + newline ends at that newline and does '
